@@ -29,6 +29,9 @@ CHECKS["C11"] = ("§5 C11", "build_trigger decided over FREE symbolic strings fo
 CHECKS["C13"] = ("§5 C13", "Every history of 3 (quick) / 4-5 (thorough) operations over register (two lines, with/without metrics), unregister by handle "
     "(repeats allowed) and service updates, run through the real Deep.register_tracepoint / TracepointRegistration / TracepointConfigService / TriggerHandler: "
     "after every operation the installed set equals a multiset model, and the same set acts when the lines are reached. Histories are enumerated by the solver (finite op alphabet).")
+CHECKS["C16"] = ("§5 C16", "Every template of 0..2 segments (3 thorough; 4 in slices) over a 12-kind segment alphabet (literals with %/:/!/non-ASCII, doubled braces, "
+    "7 field expressions incl. failing ones) driven through the real handler on log-only and snapshot+log tracepoints, 1-3 hits: message text equals an independent "
+    "renderer, one logger call per permitted hit labelled (tracepoint id, context id) in their places, snapshot.log_msg and LOG-source watches agree.")
 PENDING = {}
 
 def main():
